@@ -2,6 +2,12 @@
 from vlib.pipeline import Group
 
 LEVEL = "proof"
+MANIFEST = dict(
+    category="proof",
+    text="Function contracts on the real wopn_file.c (verified in place, no extraction): byte-precise postconditions and frames for the 16-bit codecs, WOPN_parseInstrument/WOPN_writeInstrument, the OPNI save/load/size functions, discharged by CBMC for all inputs; round-trip and load-save-load identities are lemmas over those contracts. Bank-file functions: see level_note.",
+    design_ref="DESIGN.md C15",
+    level_note="Trusted: CBMC's models of strncpy/memcpy/memcmp/malloc; spec functions in contracts/wopn_contracts.h; allocation succeeds; the four mutable magic-string pointers keep their initial value (stated precondition, invariant because no enforced frame contains them).",
+    technique="CBMC code contracts (DFCC enforce/replace) on the in-place C source; lemmas over contracts")
 SRC = "harness/wopn_h.c"
 TRUSTED = ["CBMC built-in models of strncpy, memcpy, memcmp, malloc, calloc, free",
            "spec functions in contracts/wopn_contracts.h (written from the property statement and docs/wopn specification.txt)"]
